@@ -192,3 +192,115 @@ Example C04_read_data_nonvacuous :
   read_data_call (length (wire fs) + 2) 1 1 s [] =
     (RDData 1 [226; 130; 172; 104; 105], [[138; 3; 1; 2; 3]; [138; 1; 4]]).
 Proof. vm_compute. repeat split; reflexivity. Qed.
+
+(* ------------------------------------------------------------------ transports with idle reads *)
+Require Import ReaderIdle StreamIdleProofs ReaderIdleProofs.
+
+(* io.Reader allows a Read to answer (0, nil) ("discouraged", legal). In the model
+   such an idle read is an EMPTY chunk of the chunk list: io.ReadFull (headers,
+   the control-frame callback, the drain) steps over it — and, like
+   io.ReadAtLeast, reports io.ErrUnexpectedEOF only when BYTES were read before
+   the end —; inside a payload the Reader hands "0 bytes, no error" up to its
+   caller (coq/model/ReaderIdle.v: [idle_reads s] = number of empty chunks).
+   C04_reader_meets_spec without [wf_src]: for EVERY frame sequence, EVERY
+   chunking of its wire bytes INCLUDING idle reads anywhere — inside headers,
+   masking keys, data and control payloads, between frames, before the last byte,
+   between the last byte and the end of the stream — and all caller buffer sizes,
+   the NextFrame/read-to-EOF loop yields exactly the spec's events, partial bytes
+   and error class; an idle read costs one unit of fuel (bound |wire| + idle
+   reads + 2; the old bound 2*|wire| + 4*|frames| + 8 plus the number of idle
+   reads suffices a fortiori). *)
+Theorem C04_reader_meets_spec_idle : forall c fs s bufs fuel,
+  wf_cfg c -> Forall wf_sframe fs -> tl s = TEOF -> flat s = wire fs ->
+  (length (wire fs) + idle_reads s + 2 <= fuel)%nat ->
+  let d := drive fuel bufs (new_reader s (c_state c) false (c_check_utf8 c) (c_max c) (c_ext c) CbReadAll) in
+  reader_monitor c true fs (dr_events d) (Some (dr_partial d)) (dr_err d) = true.
+Proof. exact reader_meets_spec_idle. Qed.
+Print Assumptions C04_reader_meets_spec_idle.
+
+(* the same for helper.go:ReadMessage called repeatedly (cf. C04_read_message_meets_spec) *)
+Theorem C04_read_message_meets_spec_idle : forall fs state s bufs fuel,
+  wf_cfg (mkCfg state true 0 false) -> Forall wf_sframe fs -> tl s = TEOF -> flat s = wire fs ->
+  (length (wire fs) + idle_reads s + 2 <= fuel)%nat ->
+  let '(evs, e) := read_messages fuel bufs s state [] in
+  reader_monitor (mkCfg state true 0 false) true fs evs None e = true.
+Proof. exact read_message_meets_spec_idle. Qed.
+Print Assumptions C04_read_message_meets_spec_idle.
+
+(* C04 proper on a transport with idle reads: a stream the spec accepts completely
+   ends with a clean io.EOF, every message and control frame delivered in order *)
+Theorem C04_valid_stream_delivered_idle : forall c fs s bufs fuel,
+  wf_cfg c -> Forall wf_sframe fs -> tl s = TEOF -> flat s = wire fs ->
+  (length (wire fs) + idle_reads s + 2 <= fuel)%nat ->
+  sr_out (spec_run c 0 None [] fs) = OClean ->
+  let d := drive fuel bufs (new_reader s (c_state c) false (c_check_utf8 c) (c_max c) (c_ext c) CbReadAll) in
+  dr_err d = RIo EEOF /\ evs_match (sr_events (spec_run c 0 None [] fs)) (dr_events d) = true.
+Proof. exact reader_valid_stream_idle. Qed.
+Print Assumptions C04_valid_stream_delivered_idle.
+
+(* idle reads between the last byte and the end of the stream: io.ReadFull has read
+   n = 0 bytes when the end comes, which is io.EOF, not io.ErrUnexpectedEOF — the
+   loop ends cleanly (an earlier [read_full_aux] took "a chunk was consumed" for
+   "bytes were read" and answered RIo EUnexpected here; the real wsutil.Reader over
+   {130,1,7},(0,nil),EOF delivers the message and then io.EOF) *)
+Example C04_idle_trailing :
+  let c := mkCfg 0 true 0 false in
+  let fs := [mkSF true 0 2 None [7]] in
+  let run s := let d := drive 100 [2] (new_reader s (c_state c) false (c_check_utf8 c) (c_max c) (c_ext c) CbReadAll) in
+               (dr_events d, dr_err d, reader_monitor c true fs (dr_events d) (Some (dr_partial d)) (dr_err d)) in
+  ends_idle (mkSrc [[130; 1; 7]; []] TEOF) /\
+  run (mkSrc [[130; 1; 7]; []] TEOF) = ([mkEv 2 [7] false false], RIo EEOF, true) /\
+  run (mkSrc [[130]; []; [1; 7]; []; []] TEOF) = ([mkEv 2 [7] false false], RIo EEOF, true) /\
+  (* inside a message the end of the stream stays an unexpected EOF, idle reads or not *)
+  (let d := drive 100 [2] (new_reader (mkSrc [[2; 1; 7]; []; []] TEOF) 0 false true 0 false CbReadAll) in
+   (dr_events d, dr_partial d, dr_err d)) = ([], [7], RIo EUnexpected) /\
+  (* and io.ReadFull itself: (0, nil), EOF = io.EOF; a byte, (0, nil), EOF = io.ErrUnexpectedEOF *)
+  fst (read_full 2 (mkSrc [[]] TEOF)) = ([], Some EEOF) /\
+  fst (read_full 2 (mkSrc [[]; [5]; []] TEOF)) = ([5], Some EUnexpected).
+Proof. cbv zeta. split; [exists [[130; 1; 7]]; reflexivity|]. vm_compute. repeat split; reflexivity. Qed.
+
+Example C04_idle_nonvacuous :
+  let k1 := [17; 34; 51; 68] in let k2 := [255; 0; 128; 7] in
+  let fs := [mkSF false 0 1 (Some k1) [226; 130];              (* text, cut inside a code point *)
+             mkSF true 0 9 (Some k2) [1; 2; 3];                 (* ping in between *)
+             mkSF true 0 0 (Some k1) [172; 104; 105];
+             mkSF true 0 2 (Some k2) [0; 255]] in
+  let c := mkCfg 1 true 0 false in
+  (* idle reads inside a header, a masking key, the data payloads, the ping's payload,
+     between frames, before the last byte and after it *)
+  let s := mkSrc [[1]; []; []; [130; 17; 34]; []; [51; 68; 243]; []; [160]; []; [];
+                  [137; 131; 255; 0; 128]; [7; 254]; []; [2; 131; 128]; [];
+                  [131; 17; 34; 51; 68; 189]; []; [74]; []; [90; 130; 130; 255; 0; 128; 7; 255]; []; [];
+                  [255]; []; []] TEOF in
+  let fuel := (length (wire fs) + idle_reads s + 2)%nat in
+  let d := drive fuel [2; 7; 1] (new_reader s (c_state c) false (c_check_utf8 c) (c_max c) (c_ext c) CbReadAll) in
+  (wf_cfg c /\ Forall wf_sframe fs /\ tl s = TEOF /\ flat s = wire fs /\
+   idle_reads s = 14%nat /\ ~ wf_src s /\ ends_idle s) /\
+  reader_monitor c true fs (dr_events d) (Some (dr_partial d)) (dr_err d) = true /\
+  dr_events d = [mkEv 9 [1; 2; 3] true false;
+                 mkEv 1 [226; 130; 172; 104; 105] false false;
+                 mkEv 2 [0; 255] false false] /\
+  dr_err d = RIo EEOF /\
+  (* idle reads do cost fuel: 20 of them inside a 1-byte payload and the old bound
+     2*|wire| + 4*|frames| + 8 = 18 alone no longer excludes the out-of-fuel artefact *)
+  dr_err (drive (2 * 3 + 4 * 1 + 8) [4]
+            (new_reader (mkSrc ([130; 1] :: repeat [] 20 ++ [[7]]) TEOF) 0 false true 0 false CbReadAll)) = ROutOfFuel /\
+  read_messages fuel [2; 7; 1] s 1 [] = (dr_events d, RIo EEOF).
+Proof.
+  cbv zeta. split.
+  - split; [reflexivity|]. split.
+    { repeat constructor; try reflexivity; try (intro H; discriminate H). }
+    split; [reflexivity|]. split; [vm_compute; reflexivity|]. split; [vm_compute; reflexivity|]. split.
+    { intros H. inversion H as [|? ? _ H2]. inversion H2 as [|? ? H3 _]. apply H3. reflexivity. }
+    eexists. cbn [chunks]. 
+    change [[1]; []; []; [130; 17; 34]; []; [51; 68; 243]; []; [160]; []; [];
+            [137; 131; 255; 0; 128]; [7; 254]; []; [2; 131; 128]; [];
+            [131; 17; 34; 51; 68; 189]; []; [74]; []; [90; 130; 130; 255; 0; 128; 7; 255]; []; [];
+            [255]; []; []]
+      with ([[1]; []; []; [130; 17; 34]; []; [51; 68; 243]; []; [160]; []; [];
+            [137; 131; 255; 0; 128]; [7; 254]; []; [2; 131; 128]; [];
+            [131; 17; 34; 51; 68; 189]; []; [74]; []; [90; 130; 130; 255; 0; 128; 7; 255]; []; [];
+            [255]; []] ++ [[]]).
+    reflexivity.
+  - vm_compute. repeat split; reflexivity.
+Qed.
